@@ -252,8 +252,14 @@ class ThreadingFacade:
     main_thread = staticmethod(lambda: _CurThread(cur_sim().me().proc.main))
 
 
+def _c_like(fn):
+    fn._sim_c = True
+    return fn
+
+
 class SimQueue:
-    """queue.Queue surface used by pyworkers.utils.LocalPipe"""
+    """queue.SimpleQueue (C implementation): every operation is atomic with respect to asynchronous exceptions - the
+    eval-breaker check happens when the call returns to the (instrumented) caller; a blocked get() is not interrupted"""
 
     def __init__(self, maxsize=0):
         self._items = []
@@ -262,37 +268,59 @@ class SimQueue:
     def close(self):
         pass
 
+    @_c_like
     def qsize(self):
         return len(self._items)
 
+    @_c_like
     def empty(self):
         return not self._items
 
+    @_c_like
     def put(self, item, block=True, timeout=None):
         sim = cur_sim()
-        sim.yield_('q.put')
+        sim.yield_('q.put', deliver=False)
         self._items.append(item)
         sim.wake_q(self._q)
-        sim.yield_('q.put-done')
+        sim.yield_('q.put-done', deliver=False)
+        sim.c_return_point(sim.me())
 
+    @_c_like
     def put_nowait(self, item):
-        self.put(item, block=False)
+        sim = cur_sim()
+        sim.yield_('q.put', deliver=False)
+        self._items.append(item)
+        sim.wake_q(self._q)
+        sim.c_return_point(sim.me())
 
-    def get(self, block=True, timeout=None):
+    def _get(self, block, timeout):
         sim = cur_sim()
         t = sim.me()
-        sim.yield_('q.get')
+        sim.yield_('q.get', deliver=False)
         if timeout is not None and timeout < 0:
             raise ValueError("'timeout' must be a non-negative number")
         deadline = None if timeout is None else sim.now + timeout
         while not self._items:
             if not block:
-                raise _queue.Empty
+                return sim, t, False, None
             rem = None if deadline is None else deadline - sim.now
             if rem is not None and rem <= 0:
-                raise _queue.Empty
-            sim.block(t, (self._q,), timeout=rem, what='queue.get')
-        return self._items.pop(0)
+                return sim, t, False, None
+            sim.block(t, (self._q,), timeout=rem, what='queue.get', deliver=False)
+        return sim, t, True, self._items.pop(0)
 
+    @_c_like
+    def get(self, block=True, timeout=None):
+        sim, t, ok, item = self._get(block, timeout)
+        if not ok:
+            raise _queue.Empty
+        sim.c_return_point(t)       # the item has been taken: an exception raised now loses it (as in CPython)
+        return item
+
+    @_c_like
     def get_nowait(self):
-        return self.get(block=False)
+        sim, t, ok, item = self._get(False, None)
+        if not ok:
+            raise _queue.Empty
+        sim.c_return_point(t)
+        return item
